@@ -83,6 +83,15 @@ def r09_2(ctx):
                 wd = [e for e in ev if e.kind == "store" and sv_field_path(e.obj)[-1:] == ["pRec"] and e.val == NULL]
                 reg = [e for e in ev if e.kind == "store" and sv_field_path(e.obj)[-1:] == ["pRec"] and e.val != NULL]
                 ctx.check(bool(reg), "R09.2", F, "the passive side publishes its record in the slot", None, sig="passive-register")
+                if reg and ok:
+                    # the deciding status read happens only once the record can no longer be matched: after the withdraw section
+                    # (a locked re-inspection of slot.pRec that follows the publication)
+                    ri = ev.index(reg[0])
+                    di = ev.index(lds[-1])
+                    wd2 = [j for j in range(ri + 1, di) if ev[j].kind == "read" and ev[j].extra == "pRec" and held[j] >= 1]
+                    ctx.check(bool(wd2), "R09.2", F, "the passive side decides 'collided or not' only after it re-inspected (withdrew) its slot entry under the slot lock",
+                              lds[-1].node, detail="while the record is still published a partner can collide with it after the status was read: the value is then "
+                              "delivered twice or lost. " + R, sig="passive-decide-after-withdraw")
 r09_2.rule_id = "R09.2"
 
 
